@@ -21,6 +21,7 @@ var checks = map[string]func(tier string) *core.Report{
 	"C11": progcheck.C11,
 	"C12": progcheck.C12,
 	"C18": progcheck.C18,
+	"C13": progcheck.C13,
 	"C14": progcheck.C14,
 	"C17": progcheck.C17,
 	"C08": rtcheck.C08,
